@@ -47,5 +47,5 @@ Definition trigger_F25 (cs : list case) : list N :=
 Definition trigger_F26 (cs : list case) : list N :=
   indices_where (fun c => match c with CSnap i _ _ _ => T_ghost i | _ => false end) cs.
 (* the namespace-level ghost (reported, not yet a recorded finding: no case of it is generated) *)
-Definition trigger_NSGHOST (cs : list case) : list N :=
+Definition trigger_F32 (cs : list case) : list N :=
   indices_where (fun c => match c with CDyn i _ _ => T_nsghost i | _ => false end) cs.
